@@ -177,6 +177,7 @@ def cases(c):
     out = []
     for (N, P, Q, lag) in [(64, 15, 15, 30), (64, 8, 4, 10), (32, 3, 3, 12), (32, 4, 4, 8), (32, 5, 5, 10),
                            (40, 2, 2, 4), (40, 1, 1, 2), (38, 4, 1, 5), (64, 4, 6, 12), (64, 6, 2, 20),
+                           (64, 1, 5, 5), (64, 2, 6, 6), (64, 5, 12, 12), (48, 3, 7, 7), (40, 1, 2, 2),   # P < Q, lag at its minimum Q
                            (20, 8, 5, 6), (40, 3, 1, 1), (46, 4, 1, 1)]:      # the last four: witnesses of F24a-c
         for cplx in (0, 1):
             out.append({'fn': 'arma_estimate', 'N': N, 'P': P, 'Q': Q, 'lag': lag, 'cplx': cplx,
